@@ -333,6 +333,49 @@ def build_oversize(rng):
     return base + [ev]
 
 
+def fifo_whole_lot_cost(base, tk):
+    """Sum of q*p+fees of every acquisition day of `tk` that still has a share left when that day's sells are
+    taken from the same day's acquisition first and then from earlier lots first-in first-out (no capital events
+    in the security, else None)."""
+    ts = sorted([t for t in base if t["ticker"] == tk], key=lambda t: t["date"])
+    if any(t["kind"] in ("CAPRETURN", "ACCUMULATION") for t in ts):
+        return None
+    lots = []   # [date, remaining, whole_cost]
+    by_date = {}
+    for t in ts:
+        by_date.setdefault(t["date"], []).append(t)
+    for date in sorted(by_date):
+        day = by_date[date]
+        bought = sum((fr(t["amount"]) for t in day if t["kind"] == "BUY"), ZERO)
+        cost = sum((fr(t["amount"]) * fr(t["price"][0]) + fr(t["fees"][0]) for t in day if t["kind"] == "BUY"), ZERO)
+        if any(t["kind"] == "BUY" and (t["price"][1] != "GBP" or t["fees"][1] != "GBP") for t in day):
+            return None
+        if bought > 0:
+            lots.append([date, bought, cost])
+        sold = sum((fr(t["amount"]) for t in day if t["kind"] == "SELL"), ZERO)
+        if sold > 0:
+            if lots and lots[-1][0] == date:
+                take = min(sold, lots[-1][1])
+                lots[-1][1] -= take
+                sold -= take
+            for lot in lots:
+                if sold <= 0:
+                    break
+                if lot[0] == date:
+                    continue
+                take = min(sold, lot[1])
+                lot[1] -= take
+                sold -= take
+        for t in day:
+            if t["kind"] == "SPLIT":
+                for lot in lots:
+                    lot[1] *= fr(t["ratio"])
+            elif t["kind"] == "UNSPLIT":
+                for lot in lots:
+                    lot[1] /= fr(t["ratio"])
+    return sum((lot[2] for lot in lots if lot[1] > Fraction(1, 10 ** 12)), ZERO)
+
+
 def judge_oversize(var, oa, ob, cnt):
     viols = []
     evs = marked_events(var)
@@ -348,6 +391,10 @@ def judge_oversize(var, oa, ob, cnt):
     q, c = R["holdings"].get(tk, (ZERO, ZERO))
     if q <= Fraction(1, 10 ** 6):
         return viols
+    # The known defect (F6a) counts the WHOLE cost of every lot that still has a share left (lots consumed first-in
+    # first-out, same-day first, 30-day identification ignored).  A return accepted although it exceeds even that
+    # figure is something else and gets its own signature.
+    whole_cost_of_lots_still_held = fifo_whole_lot_cost(base, tk)
     has_bnb = any(l["rule"] == "BedAndBreakfast" for d in lc.all_disposals(R) if d["ticker"] == tk for l in d["legs"])
     has_sell = any(t["kind"] == "SELL" for t in ts)
     shape = (":security-has-30-day-legs" if has_bnb else (":security-has-earlier-sales" if has_sell else ":never-sold"))
@@ -356,6 +403,8 @@ def judge_oversize(var, oa, ob, cnt):
         cnt["oversize_returns"] += 1
         if "ok" in ob:
             neg = negative_costs(lc.parse_report(ob["ok"]["report"]))
+            if whole_cost_of_lots_still_held is not None and net > whole_cost_of_lots_still_held + Fraction(1, 10 ** 6):
+                shape += ":beyond-whole-cost-of-lots-still-held"
             viols.append({"clause": "oversize-return-accepted", "signature": "oversize-return-accepted" + shape,
                           "detail": f"CAPRETURN net {float(net)!r} accepted although only {float(c)!r} of expenditure remains on the "
                                     f"{float(q)!r} {tk} shares held" + (f"; negative costs: {neg[:2]}" if neg else "")})
